@@ -1,6 +1,6 @@
 (* C01 - KV store behaves as an ordered map for every operation history.  Statements only. *)
 Require Import List ZArith Lia. Import ListNotations.
-Require Import IW.KV.Node IW.KV.Spec IW.KV.Node_proofs IW.KV.Keys IW.KV.Inst IW.KV.Keys_proofs IW.KV.KeysCompound_proofs IW.KV.KeysReal_proofs IW.KV.KeysCompound2_proofs IW.KV.EffKey_proofs IW.Lib.Vnum IW.KV.Skip IW.KV.Skip_proofs IW.Gen.Facts.
+Require Import IW.KV.Node IW.KV.Spec IW.KV.Node_proofs IW.KV.Keys IW.KV.Inst IW.KV.Keys_proofs IW.KV.KeysCompound_proofs IW.KV.KeysReal_proofs IW.KV.KeysCompound2_proofs IW.KV.EffKey_proofs IW.KV.Incr_proofs IW.Lib.Vnum IW.KV.Skip IW.KV.Skip_proofs IW.Gen.Facts.
 
 (* For EVERY history of put (plain, no-overwrite, with an update function standing for increment / put-handler),
    get and delete, every choice of skip-list levels (they do not enter this layer) and every comparator that is a
@@ -204,3 +204,19 @@ Theorem C01_old_entry_point_refuted :
     stored_size m ek <> (Z.of_nat (length (fst ek)) + Z.of_nat (length (set_vnum64 (snd ek))))%Z.
 Proof. exact old_entry_point_refuted. Qed.
 Print Assumptions C01_old_entry_point_refuted.
+
+(* IWKV_VAL_INCREMENT: the stored value is a 4- or 8-byte counter, the operand a 4- or 8-byte SIGNED number; the result keeps
+   the stored width and is the sum modulo 2^width; any other width on either side is refused (nothing changes: C01_error_leaves_state). *)
+Theorem C01_increment_is_modular_add : forall old v : list Z,
+  width_ok old = true -> width_ok v = true ->
+  exists r, incr old v = Some r /\ length r = length old /\
+            le_decode r = ((le_decode old + IW.Lib.CInt.sw (bits v) (le_decode v)) mod 2 ^ bits old)%Z.
+Proof. exact incr_is_modular_add. Qed.
+Print Assumptions C01_increment_is_modular_add.
+
+Theorem C01_increment_refused_iff : forall old v : list Z, incr old v = None <-> (width_ok old && width_ok v)%bool = false.
+Proof. exact incr_refused_iff. Qed.
+Print Assumptions C01_increment_refused_iff.
+
+Example C01_increment_negative_delta : incr [5; 0; 0; 0; 0; 0; 0; 0]%Z [255; 255; 255; 255]%Z = Some [4; 0; 0; 0; 0; 0; 0; 0]%Z.
+Proof. exact incr_negative_delta. Qed.
